@@ -911,6 +911,10 @@ impl Manager {
             p
         } else {
             info!("no roto scripts path to load filters from");
+            // A configuration without a script: units started from now on
+            // must not be handed the filters of a script that is no longer
+            // configured.
+            self.roto_compiled = None;
             return Ok(());
         };
 
